@@ -18,6 +18,8 @@ RULE = ("seeded random observation sequences from input classes {small ints, mix
         "EventBasedCounter; getters judged after every operation for the first 64 operations and at sparse "
         "checkpoints afterwards (20% 'sparse' cases: one getter asked only after k observations, after initialize + k other observations, ...); non-trivial = n >= 4 observations with non-zero variance and >= 1 rejected input "
         "or initialize in the sequence, or an all-equal sequence with n >= 2; distinct = canonical sequence hash")
+RULE += '; in a quarter of the subscriber-less cases the statistic is replaced by a pickle / deepcopy / copy of itself at a random point and after re-initialisations'
+RULE += "; value class 'subtypes': bool, IntEnum members, instances of int and float subclasses"
 ASSUMPTIONS = ["observations are finite with |x| in {0} or [1e-6, 1e12]",
                "unbiased skewness follows the SAS/SPSS/Excel formula the docstring names: g1*sqrt(n(n-1))/(n-2)",
                "a statistic whose conditioning-aware tolerance exceeds 1e-3 is judged for totality/NaN-structure only",
@@ -38,11 +40,15 @@ def gen_case(rng, tier, i):
                       "EventBasedTally+resub", "EventBasedCounter+resub"])
     entry = rng.choice(["register", "notify"]) if cls.startswith("EventBased") else "register"
     n = rng.choice([0, 1, 2, 3, 4, 5, 5, 10, 10, 50, 50, 300] + ([3000] if rng.random() < 0.08 else [12]))
-    klass = rng.choice(["int", "mixed", "offset", "equal", "two", "near", "huge", "ulp"])
+    klass = rng.choice(["int", "mixed", "offset", "equal", "two", "near", "huge", "ulp", "subtypes"])
     if cls.startswith("Counter") or cls.startswith("EventBasedCounter"):
         vals = [rng.randint(-1000, 1000) for _ in range(n)]
     elif klass == "int":
         vals = [rng.randint(-20, 20) for _ in range(n)]
+    elif klass == "subtypes":
+        # legal numbers that are not plain int / float objects: bool, IntEnum members, instances of int and float subclasses
+        vals = [rng.choice([{"sub": "bool", "v": rng.randint(0, 1)}, {"sub": "intenum", "v": rng.randint(1, 3)}, {"sub": "intsub", "v": rng.randint(-9, 9)},
+                            {"sub": "floatsub", "v": rng.choice([0.5, -2.25, 7.0, 1e-3])}, rng.randint(-5, 5), rng.choice([0.25, 1.5])]) for _ in range(n)]
     elif klass == "mixed":
         vals = [rng.choice([-1, 1]) * 10 ** rng.uniform(-6, 9) for _ in range(n)]
     elif klass == "offset":
@@ -91,6 +97,22 @@ def gen_case(rng, tier, i):
                                                    "skewness_u", "kurtosis_b", "kurtosis_u", "excess_b", "excess_u"] + [f"ci_{a}" for a in ALPHAS[2:6]]
         case["sparse"] = rng.choice(names)
         case["ops"] = obs[:k] + [["q"], ["init"]] + obs[-k:] + [["q"], obs[0], ["q"], ["init"]] + obs[:k] + [["q"]]
+    if cls.endswith("+sub") and rng.random() < 0.3:
+        # a subscriber fails once inside one of the statistic's own notifications: whether that observation counts is read off
+        # the statistic (both readings are fine), every later observation counts as always
+        idxs = [k for k, o in enumerate(case["ops"]) if o[0] == "obs"]
+        if idxs:
+            case["ops"].insert(rng.choice(idxs[:max(1, len(idxs) - 1)]), ["subfail"])
+    if "+" not in cls and rng.random() < 0.25:
+        # the statistic object is replaced by a copy of itself (pickle round trip, deepcopy, copy) - also while it is still
+        # empty or just re-initialised - and the copy carries on
+        ops2 = []
+        for o in case["ops"]:
+            ops2.append(o)
+            if o[0] == "init" and rng.random() < 0.6:
+                ops2.append(["clone", rng.choice(["pickle", "deepcopy", "copy"])])
+        ops2.insert(0 if rng.random() < 0.5 else rng.randint(0, len(ops2)), ["clone", rng.choice(["pickle", "pickle", "deepcopy", "copy"])])
+        case["ops"] = ops2
     return case
 
 
@@ -143,7 +165,27 @@ def _safe_getters(ctx, t, counter, where, only=None):
     return out
 
 
+from vlib.subtypes import materialize as _materialize
+
+
+def _unbool(g):
+    """min()/max() hand back the observed object itself: a bool observation is the number 0 or 1"""
+    if isinstance(g, tuple):
+        return tuple(_unbool(x) for x in g)
+    return int(g) if isinstance(g, bool) else g
+
+
 def run_case(case, ctx):
+    if len(case["ops"]) % 8 == 3:
+        import logging
+        from vlib.base import library_loggers_at
+        ctx.count("cases_with_the_library_loggers_at_DEBUG")
+        with library_loggers_at(logging.DEBUG):
+            return _run_case(case, ctx)
+    return _run_case(case, ctx)
+
+
+def _run_case(case, ctx):
     from pydsol.core import statistics as S
     from pydsol.core.pubsub import Event, EventListener
     from pydsol.core.interfaces import StatEvents
@@ -155,8 +197,13 @@ def run_case(case, ctx):
     published = []
     if case["cls"].endswith("+sub"):
         class Sub(EventListener):
+            fail_next = False
+
             def notify(self, event):
                 published.append(event.event_type)
+                if self.fail_next:
+                    self.fail_next = False
+                    raise RuntimeError("a subscriber of the statistic failed")
         sub = Sub()
         for et in (StatEvents.OBSERVATION_ADDED_EVENT, StatEvents.N_EVENT, StatEvents.MEAN_EVENT, StatEvents.COUNT_EVENT,
                    StatEvents.POPULATION_SKEWNESS_EVENT, StatEvents.SAMPLE_KURTOSIS_EVENT, StatEvents.INITIALIZED_EVENT):
@@ -180,16 +227,26 @@ def run_case(case, ctx):
     nops = len(case["ops"])
     for opi, op in enumerate(case["ops"]):
         where = {"op_index": opi, "op": op, "cls": case["cls"], "entry": case["entry"], "n_before": ex.n if not counter else cn}
+        if op[0] == "subfail":
+            sub.fail_next = True
+            continue
         if op[0] == "obs":
-            v = op[1]
+            v = _materialize(op[1])
+            armed = case["cls"].endswith("+sub") and sub.fail_next
             try:
                 if case["entry"] == "notify":
                     t.notify(Event(StatEvents.DATA_EVENT, v))
                 else:
                     t.register(v)
             except Exception as e:
-                ctx.viol(f"register-raises:{type(e).__name__}", {**where, "exc": repr(e)})
-                return
+                if not (armed and isinstance(e, RuntimeError)):
+                    ctx.viol(f"register-raises:{type(e).__name__}", {**where, "exc": repr(e)})
+                    return
+            if armed:
+                ctx.count("observations_during_which_a_subscriber_failed")
+                sub.fail_next = False
+                if t.n() == (cn if counter else ex.n):
+                    continue        # read as 'not registered'
             if counter:
                 csum += v
                 cn += 1
@@ -216,6 +273,14 @@ def run_case(case, ctx):
             inits += 1
         elif op[0] == "q":
             pass
+        elif op[0] == "clone":
+            import copy, pickle
+            ctx.count("statistic_replaced_by_a_copy_of_itself")
+            try:
+                t = pickle.loads(pickle.dumps(t)) if op[1] == "pickle" else copy.deepcopy(t) if op[1] == "deepcopy" else copy.copy(t)
+            except Exception as e:
+                ctx.viol(f"copy-raises:{op[1]}:{type(e).__name__}", {**where, "exc": repr(e)})
+                return
         else:
             kind = op[1]
             if (kind == "float_for_counter" and not counter) or (kind == "hugeint" and counter):
@@ -280,6 +345,8 @@ def run_case(case, ctx):
             g = got[name]
             if isinstance(g, tuple) and g and g[0] == "raised":
                 return
+            if case.get("klass") == "subtypes":
+                g = _unbool(g)
             ctx.count("getter_comparisons")
             if tol is None:
                 ctx.count("ill_conditioned_totality_only")
